@@ -332,6 +332,10 @@ func main() {
 		e2ePart(w, r)
 		return
 	}
+	if len(os.Args) > 2 && os.Args[2] == "bytes" {
+		bytesPart(w, r)
+		return
+	}
 	if len(os.Args) > 2 && os.Args[2] == "web_idle" {
 		webIdlePart(w, r)
 		return
